@@ -187,6 +187,33 @@ def run(F, ck, tier):
                 if x.get('k') == 'Lit':
                     names.add('lit:' + str(x['v']))
             ok = 'HASH_SIZE' in names and 'len' in names
+        # the threshold itself, normalised: the leaf is copied verbatim exactly when 8 * len(inputs) <= HASH_SIZE (every byte of every
+        # element fits); a threshold counted in elements or rounded up lets a leaf in whose last element is cut
+        if ok:
+            from . import poly as _poly
+            c_ = conds[0]['c']
+            neg_ = False
+            while c_.get('k') == 'Un' and c_.get('op') == 'Not':
+                neg_ = not neg_
+                c_ = c_['e']
+            if c_.get('k') == 'Bin' and c_['op'] in ('Lt', 'Le', 'Gt', 'Ge'):
+                op_ = c_['op']
+                if neg_:
+                    op_ = {'Lt': 'Ge', 'Le': 'Gt', 'Gt': 'Le', 'Ge': 'Lt'}[op_]
+                try:
+                    E_ = _poly.Ev(F)
+                    d_ = _poly.add(E_.ev(hn[0], c_['l'], {}, 2), E_.ev(hn[0], c_['r'], {}, 2), -1)
+                    if op_ in ('Gt', 'Ge'):
+                        d_ = _poly.add({}, d_, -1)
+                        op_ = 'Lt' if op_ == 'Gt' else 'Le'
+                    if op_ == 'Le':
+                        d_ = _poly.add(d_, _poly.const(1), -1)
+                    lens_ = [m for m in d_ if any(x.startswith('len(@') for x in m)]
+                    want_ok = len(lens_) == 1 and len(lens_[0]) == 1 and d_.get(lens_[0]) == 8 and d_.get(('HASH_SIZE',)) == -1 and d_.get((), 0) == -1 and len(d_) == 3
+                    ck.ob('R12.4', 'noop.threshold.exact', want_ok, 'verbatim copy exactly when 8 * len(inputs) <= HASH_SIZE' if want_ok else
+                          'Hasher::hash_or_noop copies the leaf verbatim when %s < 0, not when 8 * len(inputs) - HASH_SIZE <= 0: for a hasher whose digest is not a multiple of 8 bytes the last element of such a leaf is truncated, so different leaves share a digest' % _poly.show(d_), '%s:%d' % (hn[0].file, hn[0].line))
+                except _poly.Unknown as ex_:
+                    ck.observe('R12.4 noop.threshold.exact not applicable: %s' % ex_)
         ck.ob('R12.4', 'noop.threshold', ok, 'no-op threshold compares the input length with Self::HASH_SIZE (bytes of this hasher)' if ok else
               'Hasher::hash_or_noop no longer compares the input size in bytes with this hasher\'s HASH_SIZE: for a hasher with a shorter digest a leaf is copied verbatim and truncated, so different leaves share a digest', '%s:%d' % (hn[0].file, hn[0].line))
         E.check('R12.4', dict(id='noop.else_hash', fn=hn[0].d, kind='ret', src=['c:hash_no_pad', 'c:from_bytes', 'p:inputs'], why='short inputs embedded canonically, long ones hashed'))
